@@ -11,14 +11,16 @@ From NC Require Import Model.WriterSched Proofs.WriterSchedProofs.
    larger than what is left; 0 / negative / exception at any call; oracle ending early):
    the octets taken so far followed by the unsent tail are the frame; it ends normally iff
    every consumed answer accepted at least one octet; it ends in the error value iff the last
-   consumed answer was 0 / negative / raise (SessionCloseError unless the transport raised),
-   and then the unsent tail is non-empty. *)
+   consumed answer was 0 / negative / raise / no number at all (None) (SessionCloseError unless the transport
+   raised or the comparison `n <= 0` did), and then the unsent tail is non-empty: NO answer other than a count >= 1
+   is ever taken for progress. *)
 Theorem C02_short_writes : forall data answers w r rest,
   write_loop data answers = (w, r, rest) ->
   exists used, answers = used ++ rest /\ data = w ++ unsent r /\
     (r = WDone <-> Forall accepting used /\ unsent r = []) /\
     (forall e, r = WErr e -> exists used' a, used = used' ++ [a] /\ Forall accepting used' /\ rejecting a
-                              /\ unsent r <> [] /\ (e = SessionClose (unsent r) <-> a <> Raise)) /\
+                              /\ unsent r <> [] /\ (e = SessionClose (unsent r) <-> a <> Raise /\ a <> NoCount)
+                              /\ (e = CompareExc (unsent r) <-> a = NoCount)) /\
     (forall u, r = WStarved u -> Forall accepting used /\ rest = [] /\ u <> []).
 Proof. exact c02_short_writes. Qed.
 Print Assumptions C02_short_writes.
@@ -120,6 +122,13 @@ Example C02_ex_failure :
   worker B11 ex_q [true; true; true] [Accept 100; Accept 3; Neg; Accept 100]
   = (frame B11 naive ++ firstn 3 (frame B11 (lit "<rpc/>"%string)),
      Failed (SessionClose (skipn 3 (frame B11 (lit "<rpc/>"%string)))) [lit "0123456789ab"%string]).
+Proof. vm_compute. reflexivity. Qed.
+(* an answer that is no number (a transport write that returned None) after a short write: never progress - the frame
+   stops there, the whole rest is unsent, the messages behind it stay in the queue *)
+Example C02_ex_nocount :
+  worker B11 ex_q [true; true; true] [Accept 100; Accept 3; NoCount; Accept 100]
+  = (frame B11 naive ++ firstn 3 (frame B11 (lit "<rpc/>"%string)),
+     Failed (CompareExc (skipn 3 (frame B11 (lit "<rpc/>"%string)))) [lit "0123456789ab"%string]).
 Proof. vm_compute. reflexivity. Qed.
 Example C02_ex_inflight :
   exists u, snd (worker B10 ex_q [true; true] [Accept 100; Accept 2]) = InFlight u [lit "0123456789ab"%string].
@@ -248,6 +257,16 @@ Example C02_sched_ex_failure :
     ws_err s = Some (SessionClose (skipn 4 (frame B10 sb1))) /\ ws_conn s = false /\
     ws_wire s = frame B10 sa1 ++ firstn 4 (frame B10 sb1) /\ map put_of (ws_q s) = [(0%nat, sa2)] /\
     wstep s (LChk 0 true) = None /\ wstep s (LEmpty false) = None).
+Proof. vm_compute. repeat split; reflexivity. Qed.
+(* the same with a write call answered by None: the error carries the whole unsent rest, nothing is written afterwards *)
+Example C02_sched_ex_nocount :
+  after (wrun (winit B10 false sx_progs)
+    [LChk 0 true; LPut 0 sa1; LChk 1 true; LPut 1 sb1; LEmpty false; LReady true; LGet sa1; LPendRd false; LBaseRd B10;
+     LWrite (frame B10 sa1) (Accept 3); LWrite (skipn 3 (frame B10 sa1)) NoCount;
+     LDispErr (CompareExc (skipn 3 (frame B10 sa1))); LClose]) (fun s =>
+    ws_err s = Some (CompareExc (skipn 3 (frame B10 sa1))) /\ ws_conn s = false /\
+    ws_wire s = firstn 3 (frame B10 sa1) /\ map put_of (ws_q s) = [(1%nat, sb1)] /\
+    wstep s (LWrite (skipn 3 (frame B10 sa1)) (Accept 100)) = None /\ wstep s (LEmpty false) = None).
 Proof. vm_compute. repeat split; reflexivity. Qed.
 (* the hypotheses of the step bound are satisfiable: 15 worker steps for the 7-octet frame of "a" under 1.0 *)
 Definition sx_a : bytes := Eval compute in lit "a"%string.
